@@ -257,6 +257,134 @@ C16 = dict(
 
 TABLE = {"C02": C02, "C06": C06, "C07": C07, "C09": C09, "C16": C16, "C17": C17, "C20": C20}
 
+# =================================================================================================== LOOPS
+# Second pass of the translator: the simple loop / iterator-chain subset (`Opts(loops=True)`, see tools/rs2lean.py,
+# "Loops and iterator chains").  Whole functions are translated (no fragments); the generated files are
+# Compute/Generated/SrcCxxLoops.lean (namespace Cv.Src.CxxLoops), the equivalence theorems Compute/Props/SrcTieCxxLoops.lean.
+# `int_arith=True`: usize arithmetic is unbounded Nat (overflow not modelled; `a - b` IS checked: guard `b ≤ a`);
+# `x[i]` is `x[i]!` (the out-of-bounds panic is not modelled; the theorems that need it carry / derive the bounds).
+LOOP_CLASSES = ALL_CLASSES + " [Inhabited α]"
+_L = dict(loops=True, int_arith=True)
+_STAT = "src/statistics/"
+_C08F = {"welford_update": "welfordUpdate", "welford_statistics": "welfordStatistics", "sum": "Cv.sum8", "mean": "mean",
+         "var": "var", "sample_var": "sampleVar", "f64::min": "Cv.fminG", "f64::max": "Cv.fmaxG"}
+
+
+def _l(file, path, name, fns=None, **kw):
+    o = dict(_L)
+    o.update(kw)
+    if fns is not None:
+        o["fns"] = dict(fns)
+    return (file, path, O(name, **o))
+
+
+C08L = dict(
+    imports=["Compute.Model.Scalar", "Compute.Model.Kernels", "Compute.Model.Stats"],
+    variables=LOOP_CLASSES + " [Cv.HasNaN α]",
+    about="src/statistics/{moments,covariance,order,hist}.rs: whole functions (loops, folds, iterator chains).\n"
+          "`sum` is the shared unrolled kernel `Cv.sum8`, `Iterator::sum::<f64>()` is `Cv.iterSum` (fold from -0.0),\n"
+          "`f64::min` / `f64::max` are `Cv.fminG` / `Cv.fmaxG`, `f64::NAN` is `HasNaN.nan`, `f64::MAX` / `f64::MIN` are the\n"
+          "parameters `big` / `small` (as in Model/Stats.lean); calls of functions of this table go to the generated definitions.",
+    functions=[
+        _l(_STAT + "moments.rs", "welford_update", "welfordUpdate", _C08F),
+        _l(_STAT + "moments.rs", "welford_statistics", "welfordStatistics", _C08F),
+        _l(_STAT + "moments.rs", "mean", "mean", _C08F),
+        _l(_STAT + "moments.rs", "welford_mean", "welfordMean", _C08F),
+        _l(_STAT + "moments.rs", "var", "var", _C08F),
+        _l(_STAT + "moments.rs", "sample_var", "sampleVar", _C08F),
+        _l(_STAT + "moments.rs", "std", "std", _C08F),
+        _l(_STAT + "moments.rs", "sample_std", "sampleStd", _C08F, opt_fns=("sample_var",)),
+        _l(_STAT + "covariance.rs", "covariance", "covariance", _C08F),
+        _l(_STAT + "covariance.rs", "sample_covariance", "sampleCovariance", _C08F),
+        _l(_STAT + "covariance.rs", "sample_covariance_onepass", "sampleCovarianceOnepass", _C08F),
+        _l(_STAT + "covariance.rs", "sample_covariance_online", "sampleCovarianceOnline", _C08F),
+        _l(_STAT + "order.rs", "min", "minFold", _C08F, consts={"f64::NAN": "Cv.HasNaN.nan"}),
+        _l(_STAT + "order.rs", "max", "maxFold", _C08F, consts={"f64::NAN": "Cv.HasNaN.nan"}),
+        _l(_STAT + "order.rs", "argmin", "argmin", _C08F, consts={"f64::MAX": "big"}, extra_binders=[("big", "α")]),
+        _l(_STAT + "order.rs", "argmax", "argmax", _C08F, consts={"f64::MIN": "small"}, extra_binders=[("small", "α")]),
+        _l(_STAT + "hist.rs", "hist_bin_centers", "histBinCenters", _C08F),
+    ],
+)
+
+_TSF = {"mean": "Cv.TS.mean"}
+C13L = dict(
+    imports=["Compute.Model.Scalar", "Compute.Model.Timeseries"],
+    variables=LOOP_CLASSES,
+    about="src/timeseries/functions.rs: `acovf`, `acf`, `difference` (whole functions).  `mean` is `Cv.TS.mean` (the unrolled\n"
+          "`sum` over the length), `Iterator::sum::<f64>()` is `Cv.TS.iterSum` (fold from -0.0), `k.abs() as usize` is `Int.natAbs k`\n"
+          "(`i32` overflow of `abs` at `i32::MIN` is not modelled), `.powi(2)` is `Cv.powi _ 2`.",
+    functions=[
+        _l("src/timeseries/functions.rs", "acovf", "acovf", _TSF, iter_sum="Cv.TS.iterSum"),
+        _l("src/timeseries/functions.rs", "acf", "acf", _TSF, iter_sum="Cv.TS.iterSum"),
+        _l("src/timeseries/functions.rs", "difference", "difference", _TSF, iter_sum="Cv.TS.iterSum"),
+    ],
+)
+
+C07L = dict(
+    imports=["Compute.Model.Scalar", "Compute.Model.Stats"],
+    variables=LOOP_CLASSES,
+    about="src/integrate/functions.rs: `trapz` as a whole function (the iterator pipeline `(1..n).map(|k| ..).sum::<f64>()`\n"
+          "included; Generated/SrcC07.lean has its straight-line fragments).  The integrand `f: F` is the binder `f : α → α`.\n"
+          "src/integrate/samples.rs: the two per-index closures of `trapezoid` as scalar fragments (`xarr[i]`, `y[i - 1]`, `diff_x[i - 1]`\n"
+          "are scalars); the function as a whole (`Option` arguments, `if let`, `Vector::ones(..) * dx`) is outside the subset.",
+    functions=[
+        _l("src/integrate/functions.rs", "trapz", "trapz", {}, fn_params={"f": "α → α"}),
+        _fr("src/integrate/samples.rs", "trapezoid", "trapezoidDiff", kind="closure", index=0,
+            index_vars={("xarr", "i"): "xi", ("xarr", "i - 1"): "xp"}),
+        _fr("src/integrate/samples.rs", "trapezoid", "trapezoidTerm", kind="closure", index=1,
+            index_vars={("y", "i"): "yi", ("y", "i - 1"): "yp", ("diff_x", "i - 1"): "d"}),
+    ],
+)
+
+C14L = dict(
+    imports=["Compute.Model.Scalar"],
+    variables=LOOP_CLASSES,
+    about="src/predict/polynomial.rs: `PolynomialRegressor::predict` (Horner fold over the reversed coefficients, per input).",
+    functions=[
+        _l("src/predict/polynomial.rs", "PolynomialRegressor::predict", "predict", {}),
+    ],
+)
+
+_MAXL = [("isNaN", "α → Bool"), ("nan", "α")]
+_C04F = {"max": "Cv.VecOps.maxL isNaN nan", "dot": "Cv.dot8"}
+C04L = dict(
+    imports=["Compute.Model.Scalar", "Compute.Model.Kernels", "Compute.Model.Stats", "Compute.Model.VecOps"],
+    variables=LOOP_CLASSES,
+    about="src/linalg/utils.rs: the reductions `logsumexp`, `logmeanexp`, `prod`, `norm`.  `max` (statistics::max, a NaN-seeded\n"
+          "fold of `f64::max`) is `Cv.VecOps.maxL isNaN nan` with the NaN test and the NaN seed as parameters (as in\n"
+          "Model/VecOps.lean), `dot` is the shared unrolled kernel `Cv.dot8`, `Iterator::sum::<f64>()` is `Cv.iterSum`\n"
+          "(fold from -0.0), `Iterator::product()` is the left fold of `*` from 1.\n"
+          "`is_matrix` returns `Result<usize, String>`: `Ok(c)` is `some c`, `Err(..)` is `none` (its callers `.unwrap()`); the\n"
+          "`usize` division `m.len() / nrows` panics for `nrows = 0` (guard `0 < nrows`).  `inf_norm`: the nested `for` loops with\n"
+          "`abs_row_sums.push(s)` are nested folds (`acc ++ [s]`).",
+    functions=[
+        _l("src/linalg/utils.rs", "logsumexp", "logsumexp", _C04F, extra_binders=_MAXL),
+        _l("src/linalg/utils.rs", "logmeanexp", "logmeanexp", _C04F, extra_binders=_MAXL),
+        _l("src/linalg/utils.rs", "prod", "prod", _C04F),
+        _l("src/linalg/utils.rs", "norm", "norm", _C04F),
+        _l("src/linalg/utils.rs", "is_matrix", "isMatrix", _C04F),
+        _l("src/linalg/utils.rs", "inf_norm", "infNorm", dict(_C04F, is_matrix="isMatrix"), opt_fns=("is_matrix",),
+           extra_binders=_MAXL),
+    ],
+)
+
+TABLE_LOOPS = {"C04": C04L, "C07": C07L, "C08": C08L, "C13": C13L, "C14": C14L}
+
+# theorems of Compute/Props/SrcTieCxxLoops.lean the check must find
+REQUIRED_LOOPS = {
+    "C04": ["Cv.SrcTie.C04Loops." + n for n in (
+        "logsumexp_src", "logmeanexp_src", "logsumexp_eq_of", "logmeanexp_eq_of", "prod_eq", "norm_eq", "isMatrix_eq",
+        "infNorm_eq")],
+    "C07": ["Cv.SrcTie.C07Loops.trapz_eq", "Cv.SrcTie.C07Loops.pairDiffs_eq", "Cv.SrcTie.C07Loops.trapezoid_terms_eq",
+            "Cv.SrcTie.C07Loops.trapezoid_some_eq"],
+    "C08": ["Cv.SrcTie.C08Loops." + n for n in (
+        "welfordUpdate_eq", "welfordStatistics_eq", "mean_eq", "welfordMean_eq", "var_eq", "sampleVar_eq", "std_eq",
+        "sampleStd_eq", "covariance_eq", "sampleCovariance_eq", "sampleCovarianceOnepass_eq", "sampleCovarianceOnline_eq",
+        "minFold_eq", "maxFold_eq", "argmin_eq", "argmax_eq", "histBinCenters_eq")],
+    "C13": ["Cv.SrcTie.C13Loops." + n for n in ("acovf_eq", "acf_eq", "difference_eq")],
+    "C14": ["Cv.SrcTie.C14Loops.predict_eq"],
+}
+
 # theorems of Compute/Props/SrcTieCxx.lean the check must find (REQUIRED_THEOREMS += srctie.REQUIRED["Cxx"])
 REQUIRED = {
     "C02": [
@@ -326,10 +454,33 @@ def wire(mod_globals, pid):
     g["EXTRACT"] = _extract
 
 
+def wire_loops(mod_globals, pid):
+    """Same as `wire` for the loop / iterator-chain tables:  `srctie.wire_loops(globals(), "Cxx")` adds the proof module
+    `Compute.Props.SrcTieCxxLoops`, its required theorems, and chains EXTRACT with Generated/SrcCxxLoops.lean."""
+    g = mod_globals
+    g["PROOF_MODULES"] = list(g.get("PROOF_MODULES", [])) + ["Compute.Props.SrcTie%sLoops" % pid]
+    g["REQUIRED_THEOREMS"] = list(g.get("REQUIRED_THEOREMS", [])) + REQUIRED_LOOPS[pid]
+    old = g.get("EXTRACT") or (lambda repo: {})
+    def _extract(repo):
+        from . import common as _c
+        files, notes = {}, []
+        for fn in (old, lambda r: extract_for(pid + "Loops", r)):
+            try:
+                files.update(fn(repo))
+            except _c.SourceDrift as e:
+                files.update(e.files)
+                notes.append(str(e))
+        if notes:
+            raise _c.SourceDrift(" || ".join(notes), files)
+        return files
+    g["EXTRACT"] = _extract
+
+
 # --------------------------------------------------------------------------------------------------- driver
 def extract_for(pid, repo):
-    """{relpath under lean/: content} for one property; raises if a function left the translated subset."""
-    cfg = TABLE[pid]
+    """{relpath under lean/: content} for one property; raises if a function left the translated subset.
+    `pid` is `Cxx` (TABLE: straight-line functions) or `CxxLoops` (TABLE_LOOPS: loops / iterator chains)."""
+    cfg = TABLE_LOOPS[pid[:-5]] if pid.endswith("Loops") else TABLE[pid]
     sources = {}
     out = []
     out.append("/- GENERATED by tools/cv/srctie.py (EXTRACT_SRC, translator tools/rs2lean.py) from /repo/src — do not edit.\n"
@@ -375,14 +526,17 @@ def extract_for(pid, repo):
     out.append("end Cv.Src.%s\n" % pid)
     files = {"Compute/Generated/Src%s.lean" % pid: "".join(out)}
     if notes:
-        from . import common as _c
+        try:
+            from . import common as _c
+        except ImportError:                       # run as a script (CLI / tools/srctie_mutation.sh)
+            import common as _c
         raise _c.SourceDrift(" || ".join(notes), files)
     return files
 
 
 def EXTRACT_SRC(repo):
     files = {}
-    for pid in sorted(TABLE):
+    for pid in sorted(TABLE) + [q + "Loops" for q in sorted(TABLE_LOOPS)]:
         files.update(extract_for(pid, repo))
     return files
 
@@ -404,7 +558,7 @@ def main(argv):
         else:
             pids.append(a)
             i += 1
-    pids = pids or sorted(TABLE)
+    pids = pids or (sorted(TABLE) + [q + "Loops" for q in sorted(TABLE_LOOPS)])
     rc = 0
     for pid in pids:
         for rel, content in extract_for(pid, repo).items():
